@@ -35,7 +35,8 @@ func (l *c09Log) job(id int, panics bool, slow bool) func() {
 		}
 		l.mu.Unlock()
 		if slow {
-			time.Sleep(30 * time.Millisecond)
+			// long enough for the spawn loop to have gone idle again (its pass interval is 20 ms)
+			time.Sleep(100 * time.Millisecond)
 		}
 		l.mu.Lock()
 		l.running--
@@ -80,6 +81,8 @@ func vh_C09_Run() {
 	slowOne := -1
 	if vfTier() > 0 {
 		slowOne = vfRange("slow", -1, jobs-1)
+	} else if panicker >= 0 && vfChoose("late-panic", 2) == 1 {
+		slowOne = panicker // the panic happens while the spawn loop is idle
 	}
 	accepted := make([]bool, jobs)
 	for i := 0; i < jobs; i++ {
